@@ -11,10 +11,11 @@ for pid in ids:
     cf = os.path.join(V, "corpus", pid, "known.case")
     have = {}
     if os.path.exists(cf):
-        cur = None
+        cur = None; pend = ""
         for l in open(cf).read().split("\n"):
-            if l.startswith("# "): cur = l[2:].split()[0]
-            elif l.strip() and cur: have[cur] = l
+            if l.startswith("# "): cur = l[2:].split()[0]; pend = ""
+            elif l.startswith("#info "): pend = l + "\n"
+            elif l.strip() and cur: have[cur] = pend + l; pend = ""
     have = {k: v for k, v in have.items() if k in want}
     S = tempfile.mkdtemp(prefix="mkcorpus.")
     for seed in range(1, 13):
@@ -23,7 +24,8 @@ for pid in ids:
         try: kc = json.load(open(os.path.join(S, "evidence", pid + ".json")))["coverage"].get("known_findings_cases", {})
         except Exception: kc = {}
         for k, v in kc.items():
-            if k in want and k not in have and len(v["case"]) < 20000: have[k] = v["case"]
+            if k in want and k not in have and len(v["case"]) < 20000:
+                have[k] = (("#info " + json.dumps(v["info"], default=str) + "\n") if v.get("info") else "") + v["case"]
     shutil.rmtree(S, ignore_errors=True)
     os.makedirs(os.path.dirname(cf), exist_ok=True)
     with open(cf, "w") as f:
